@@ -131,6 +131,45 @@ Section SK.
     split; [now rewrite <- app_assoc|]. split; [lia|]. exists k'. auto.
   Qed.
 
+  (* protection succeeds on the whole domain whenever the random source delivers and the SK payload fits *)
+  Lemma draw_app r : forall s2, draw (length r) (map (@Some byte) r ++ s2) = (Ok r, s2).
+  Proof. induction r as [|x r IH]; intros s2; cbn [draw length map app]; [reflexivity|]. now rewrite IH. Qed.
+
+  Theorem protect_succeeds sa role m padr iv s2 :
+    sa_wf sa -> dom_msg m ->
+    let plain := wenc_chain (sk_last (m_payloads m)) (map (canon_payload eap_bytes) (m_payloads m)) in
+    length padr = pad_of plain -> length iv = 16%nat ->
+    4 + (N.of_nat (16 + length plain + pad_of plain) + N.of_nat (integ_outlen (sa_integ sa))) < 65536 ->
+    exists b sa',
+      encode_encrypt digest aes_enc m (Some sa) role (map (@Some byte) padr ++ map (@Some byte) iv ++ s2) = (Ok b, sa', s2).
+  Proof.
+    intros Hwf (Hh & Hp & Htot) plain Lp Liv Hfit. unfold encode_encrypt, encrypt_msg.
+    rewrite (container_encode_canon _ Hp). fold plain. fold (send_key sa role).
+    assert (Ea : exists ct, aes_encrypt aes_enc (send_key sa role) plain (map (@Some byte) padr ++ map (@Some byte) iv ++ s2) = (Ok ct, s2)).
+    { unfold aes_encrypt, pkcs7_padding. fold (pad_of plain). rewrite <- Lp. rewrite draw_app. rewrite <- Liv. rewrite draw_app. eauto. }
+    destruct Ea as [ct Ea]. rewrite Ea.
+    set (icv := integ_outlen (sa_integ sa)) in *. set (nxt := first_type (m_payloads m)).
+    destruct (aes_encrypt_spec aes_enc aes_dec blk _ _ _ _ _ Ea) as (padr' & iv' & _ & _ & _ & _ & _ & Lct & _ & _ & _).
+    assert (Hne : ct ++ zeros icv <> []) by (destruct ct; [cbn in Lct; lia|discriminate]).
+    assert (Lz : len (ct ++ zeros icv) = len ct + N.of_nat icv) by (unfold len; len_norm; lia).
+    assert (Hf2 : 4 + (len ct + N.of_nat icv) < 65536) by (unfold len; rewrite Lct; lia).
+    rewrite (encode_sk (m_hdr m) nxt (ct ++ zeros icv) Hh Hne) by (rewrite Lz; exact Hf2).
+    rewrite Lz.
+    set (P := sk_prefix (m_hdr m) nxt (len ct + N.of_nat icv)).
+    rewrite upto_ok by (len_norm; lia).
+    assert (Hcov : firstn (length (P ++ ct ++ zeros icv) - icv) (P ++ ct ++ zeros icv) = P ++ ct).
+    { rewrite app_assoc. apply firstn_app_len. len_norm. lia. }
+    rewrite Hcov.
+    destruct (calc_integrity_value sa role (P ++ ct) Hwf) as (Hv & Heq & Hwf').
+    destruct (calculate_integrity digest sa role (P ++ ct)) as [rc k'] eqn:Ci. cbn [fst snd] in *. subst rc.
+    assert (Hne2 : ct ++ mac sa role (P ++ ct) <> []) by (destruct ct; [cbn in Lct; lia|discriminate]).
+    assert (Lm : len (ct ++ mac sa role (P ++ ct)) = len ct + N.of_nat icv).
+    { unfold len. rewrite app_length, mac_length by assumption. fold icv. lia. }
+    assert (Hh46 : dom_header (set_next (m_hdr m) 46)) by (destruct (m_hdr m); exact Hh).
+    rewrite (encode_sk (set_next (m_hdr m) 46) nxt _ Hh46 Hne2) by (rewrite Lm; lia).
+    eauto.
+  Qed.
+
   (* ---------- unprotection: acceptance implies a valid tag; nothing reaches the cipher before that ---------- *)
   Lemma container_decode_last_sk fuel : forall nxt b ps nx ed,
     container_decode fuel nxt b = Ok ps -> last_sk ps None = Ok (Some (nx, ed)) ->
@@ -343,23 +382,28 @@ Section SK.
   Lemma first_type_lt ps : first_type ps < 256.
   Proof. destruct ps as [|p r]; cbn; [lia|apply ptype_lt]. Qed.
 
-  Theorem protect_unprotect sa sa2 role m s b sa' s' :
+  (* the receiver's side for ANY datagram of the s3.14 layout whose ciphertext decrypts to the encoded payloads:
+     used for the library's own output (protect_unprotect) and for reference-built datagrams (C06) *)
+  Lemma tagged_accepted sa sa2 role m plain ct :
     sa_wf sa -> sa_wf sa2 -> sa_eqk sa sa2 -> dom_msg m -> sk_consistent (m_payloads m) ->
-    encode_encrypt digest aes_enc m (Some sa) role s = (Ok b, sa', s') ->
+    container_encode (m_payloads m) = Ok plain ->
+    aes_decrypt aes_dec (send_key sa role) ct = Ok plain -> ct <> [] ->
+    let nxt := first_type (m_payloads m) in
+    let icv := integ_outlen (sa_integ sa) in
+    4 + (len ct + N.of_nat icv) < 65536 ->
+    let covered := sk_prefix (m_hdr m) nxt (len ct + N.of_nat icv) ++ ct in
+    let b := covered ++ mac sa role covered in
     let expect := mkMsg (set_next (m_hdr m) 46) (map norm_payload (m_payloads m)) in
-    (* the receiver may or may not have parsed the header beforehand *)
     forall hdr, (hdr = None \/ exists pb, parse_header b = Ok (set_next (m_hdr m) 46, pb) /\ hdr = Some (set_next (m_hdr m) 46)) ->
     exists k2',
       decode_decrypt digest aes_dec b hdr (Some sa2) (negb role) = (Ok expect, Some k2', [CDec role]) /\ sa_eqk sa2 k2'.
   Proof.
-    intros Hwf Hwf2 Heq (Hh & Hp & Htot) Hc Hpe expect hdr Hhdr.
-    destruct (protect_spec sa role m s b sa' s' Hwf Hh Hpe) as (plain & ct & Ece & Eae & Hb & Hfit & _).
-    cbv zeta in Hb. set (nxt := first_type (m_payloads m)) in *. set (icv := integ_outlen (sa_integ sa)) in *.
+    intros Hwf Hwf2 Heq (Hh & Hp & Htot) Hc Ece Hdec Hct0 nxt icv Hfit covered b0 expect hdr Hhdr.
     set (P := sk_prefix (m_hdr m) nxt (len ct + N.of_nat icv)) in *.
     set (tag := mac sa role (P ++ ct)) in *.
-    destruct (aes_encrypt_spec aes_enc aes_dec blk _ _ _ _ _ Eae) as (padr & iv & _ & _ & _ & _ & _ & Lct & _ & _ & Hdec).
+    remember b0 as b eqn:Hb. unfold b0, covered in Hb. fold tag in Hb. clear b0.
     assert (Ltag : length tag = icv) by (apply mac_length; assumption).
-    assert (Hne : ct ++ tag <> []) by (destruct ct; [cbn in Lct; lia|discriminate]).
+    assert (Hne : ct ++ tag <> []) by (destruct ct; [congruence|discriminate]).
     assert (Ld : len (ct ++ tag) = len ct + N.of_nat icv) by (unfold len; rewrite app_length, Ltag; lia).
     (* b is the plain encoding of the one-payload message [SK] *)
     set (msk := mkMsg (m_hdr m) [PSK nxt (ct ++ tag)]).
@@ -412,5 +456,135 @@ Section SK.
     rewrite Hct, Hdec.
     fold nxt. unfold nxt. rewrite (container_roundtrip (m_payloads m) plain Hp Hc Ece).
     exists k2'. split; [reflexivity|exact Hk2].
+  Qed.
+
+  Theorem protect_unprotect sa sa2 role m s b sa' s' :
+    sa_wf sa -> sa_wf sa2 -> sa_eqk sa sa2 -> dom_msg m -> sk_consistent (m_payloads m) ->
+    encode_encrypt digest aes_enc m (Some sa) role s = (Ok b, sa', s') ->
+    let expect := mkMsg (set_next (m_hdr m) 46) (map norm_payload (m_payloads m)) in
+    (* the receiver may or may not have parsed the header beforehand *)
+    forall hdr, (hdr = None \/ exists pb, parse_header b = Ok (set_next (m_hdr m) 46, pb) /\ hdr = Some (set_next (m_hdr m) 46)) ->
+    exists k2',
+      decode_decrypt digest aes_dec b hdr (Some sa2) (negb role) = (Ok expect, Some k2', [CDec role]) /\ sa_eqk sa2 k2'.
+  Proof.
+    intros Hwf Hwf2 Heq Hd Hc Hpe expect hdr Hhdr.
+    destruct (protect_spec sa role m s b sa' s' Hwf (proj1 Hd) Hpe) as (plain & ct & Ece & Eae & Hb & Hfit & _).
+    cbv zeta in Hb.
+    destruct (aes_encrypt_spec aes_enc aes_dec blk _ _ _ _ _ Eae) as (padr & iv & _ & _ & _ & _ & _ & Lct & _ & _ & Hdec).
+    assert (Hct0 : ct <> []) by (destruct ct; [cbn in Lct; lia|discriminate]).
+    subst b. exact (tagged_accepted sa sa2 role m plain ct Hwf Hwf2 Heq Hd Hc Ece Hdec Hct0 Hfit hdr Hhdr).
+  Qed.
+
+  (* ---------- C06: a datagram built by an independent sender with any legal padding is accepted ---------- *)
+  Theorem reference_accepted sa sa2 role m plain iv pad :
+    sa_wf sa -> sa_wf sa2 -> sa_eqk sa sa2 -> dom_msg m -> sk_consistent (m_payloads m) ->
+    container_encode (m_payloads m) = Ok plain ->
+    length iv = 16%nat -> (length pad <= 255)%nat -> ((length plain + length pad + 1) mod 16 = 0)%nat ->
+    let padded := plain ++ pad ++ [n2b (N.of_nat (length pad))] in
+    let ct := iv ++ cbc_enc (aes_enc (send_key sa role)) (length padded / 16) iv padded in
+    let nxt := first_type (m_payloads m) in
+    let icv := integ_outlen (sa_integ sa) in
+    4 + (len ct + N.of_nat icv) < 65536 ->
+    let covered := sk_prefix (m_hdr m) nxt (len ct + N.of_nat icv) ++ ct in
+    let b := covered ++ mac sa role covered in
+    forall hdr, (hdr = None \/ exists pb, parse_header b = Ok (set_next (m_hdr m) 46, pb) /\ hdr = Some (set_next (m_hdr m) 46)) ->
+    exists k2',
+      decode_decrypt digest aes_dec b hdr (Some sa2) (negb role) =
+        (Ok (mkMsg (set_next (m_hdr m) 46) (map norm_payload (m_payloads m))), Some k2', [CDec role]) /\ sa_eqk sa2 k2'.
+  Proof.
+    intros Hwf Hwf2 Heq Hd Hc Ece Liv Lpad M16 padded ct nxt icv Hfit covered b hdr Hhdr.
+    assert (Hdec : aes_decrypt aes_dec (send_key sa role) ct = Ok plain)
+      by (apply (aes_decrypt_any_padding aes_enc aes_dec blk); assumption).
+    assert (Hct0 : ct <> []) by (unfold ct; destruct iv; [discriminate Liv|discriminate]).
+    exact (tagged_accepted sa sa2 role m plain ct Hwf Hwf2 Heq Hd Hc Ece Hdec Hct0 Hfit hdr Hhdr).
+  Qed.
+
+  (* ---------- C02: every way an unprotection can end ---------- *)
+  Lemma decrypt_msg_nocall raw m k role r k' :
+    decrypt_msg digest aes_dec raw m k role = (r, k', []) -> forall m', r <> Ok m'.
+  Proof.
+    unfold decrypt_msg.
+    repeat (match goal with |- context [match ?x with _ => _ end] => destruct x eqn:? end);
+      intros Hq m' ->; inversion Hq.
+  Qed.
+
+  Theorem unprotect_outcomes raw hdr k role :
+    sa_wf k ->
+    let '(r, _, calls) := decode_decrypt digest aes_dec raw hdr (Some k) role in
+    (* refused, or not an SK datagram and handled as an unprotected one: no cipher call, no key applied *)
+    (calls = [] /\ (r = Err \/ exists m0, parsed_of raw hdr = Ok m0 /\ first_is_sk (m_payloads m0) = false /\ r = Ok m0))
+    (* or the checksum over the received octets was valid under the peer direction's key, then one cipher call *)
+    \/ (calls = [CDec (negb role)] /\ valid_tagged k (negb role) raw /\ Thm.NoFault.safe r).
+  Proof.
+    intros Hwf.
+    pose proof (decode_decrypt_safe digest aes_enc aes_dec digest_len blk raw hdr (Some k) role) as Sf.
+    pose proof (cipher_called_only_after_valid_tag raw hdr k role Hwf) as Hc.
+    unfold decode_decrypt in *. fold (parsed_of raw hdr) in *.
+    assert (Sf' := Sf (fun k0 Hk => ltac:(injection Hk as <-; exact Hwf))). clear Sf.
+    destruct (parsed_of raw hdr) as [m| | |] eqn:Pm; cbn [fst] in Sf'.
+    - destruct (length (m_payloads m) =? 0)%nat eqn:E0.
+      + destruct (h_next (m_hdr m) =? 46); left; (split; [reflexivity|]); [now left|].
+        right. exists m. split; [reflexivity|]. split; [|reflexivity].
+        destruct (m_payloads m); [reflexivity|discriminate E0].
+      + destruct (first_is_sk (m_payloads m)) eqn:Fs.
+        * destruct (decrypt_msg digest aes_dec raw m k role) as [[r k'] calls] eqn:Dm. cbn [fst] in Sf'.
+          destruct Hc as [Hc|[Hc Hv]].
+          -- subst calls. left. split; [reflexivity|]. left.
+             pose proof (decrypt_msg_nocall _ _ _ _ _ _ Dm) as Hn. destruct Sf' as [S1 S2].
+             destruct r; [exfalso; eapply Hn; reflexivity|reflexivity|congruence|congruence].
+          -- right. auto.
+        * left. split; [reflexivity|]. right. exists m. auto.
+    - left. split; [reflexivity|]. now left.
+    - destruct Sf' as [S1 _]. congruence.
+    - destruct Sf' as [_ S2]. congruence.
+  Qed.
+
+  (* split a datagram at the checksum *)
+  Lemma valid_tagged_split k role c t :
+    length t = integ_outlen (sa_integ k) -> valid_tagged k role (c ++ t) -> t = mac k role c.
+  Proof.
+    intros Lt (_ & Hv). rewrite app_length, Lt in Hv.
+    replace (length c + integ_outlen (sa_integ k) - integ_outlen (sa_integ k))%nat with (length c) in Hv by lia.
+    rewrite firstn_app_len in Hv by reflexivity. now apply app_inv_head in Hv.
+  Qed.
+
+  (* any datagram c ++ t whose last icv octets are not the MAC of the rest: the cipher is never called, and the
+     datagram is refused unless it no longer presents an Encrypted payload *)
+  Theorem bad_tag_refused raw hdr k role c t :
+    sa_wf k -> raw = c ++ t -> length t = integ_outlen (sa_integ k) -> t <> mac k (negb role) c ->
+    let '(r, _, calls) := decode_decrypt digest aes_dec raw hdr (Some k) role in
+    calls = [] /\ (r = Err \/ exists m0, parsed_of raw hdr = Ok m0 /\ first_is_sk (m_payloads m0) = false /\ r = Ok m0).
+  Proof.
+    intros Hwf -> Lt Hne. pose proof (unprotect_outcomes (c ++ t) hdr k role Hwf) as Ho.
+    destruct (decode_decrypt digest aes_dec (c ++ t) hdr (Some k) role) as [[r k'] calls].
+    destruct Ho as [Ho|(_ & Hv & _)]; [exact Ho|]. exfalso. apply Hne. now apply valid_tagged_split.
+  Qed.
+
+  (* shorter than a checksum: never reaches the cipher *)
+  Theorem too_short_refused raw hdr k role :
+    sa_wf k -> (length raw < integ_outlen (sa_integ k))%nat ->
+    let '(r, _, calls) := decode_decrypt digest aes_dec raw hdr (Some k) role in
+    calls = [] /\ (r = Err \/ exists m0, parsed_of raw hdr = Ok m0 /\ first_is_sk (m_payloads m0) = false /\ r = Ok m0).
+  Proof.
+    intros Hwf Hs. pose proof (unprotect_outcomes raw hdr k role Hwf) as Ho.
+    destruct (decode_decrypt digest aes_dec raw hdr (Some k) role) as [[r k'] calls].
+    destruct Ho as [Ho|(_ & (Hv & _) & _)]; [exact Ho|]. lia.
+  Qed.
+
+  (* a genuine message c ++ mac sa role c presented to ANY key set k as receiver role r2: the cipher is reached only
+     if the receiver's expected MAC coincides with the sender's - for the peer role and the same keys that is
+     the accepted case (C01); for the sender's own role (reflection) or for other keys it is an HMAC coincidence *)
+  Theorem genuine_under_other_keys sa role c hdr k r2 :
+    sa_wf k -> integ_outlen (sa_integ k) = integ_outlen (sa_integ sa) -> sa_wf sa ->
+    let b := c ++ mac sa role c in
+    let '(r, _, calls) := decode_decrypt digest aes_dec b hdr (Some k) r2 in
+    mac sa role c = mac k (negb r2) c \/
+    (calls = [] /\ (r = Err \/ exists m0, parsed_of b hdr = Ok m0 /\ first_is_sk (m_payloads m0) = false /\ r = Ok m0)).
+  Proof.
+    intros Hwf Hi Hwfs b.
+    destruct (list_eq_dec Byte.byte_eq_dec (mac sa role c) (mac k (negb r2) c)) as [He|Hne]; [destruct (decode_decrypt _ _ _ _ _ _) as [[? ?] ?]; now left|].
+    pose proof (bad_tag_refused b hdr k r2 c (mac sa role c) Hwf eq_refl) as Hb.
+    rewrite mac_length in Hb by assumption. specialize (Hb (eq_sym Hi) Hne).
+    destruct (decode_decrypt digest aes_dec b hdr (Some k) r2) as [[r k'] calls]. now right.
   Qed.
 End SK.
